@@ -189,9 +189,11 @@ def d3_reader(chk, repo):
            "labels are dropped (None) unless there are exactly as many as components", v.f)
     special = set()
     for n in ast.walk(v.f.node):
-        if isinstance(n, ast.Compare) and isinstance(n.left, ast.Name) and \
-                any(isinstance(x, ast.Constant) and x.value in ("field", "valid", "norm") for c_ in n.comparators for x in ast.walk(c_)):
-            for c_ in n.comparators:
+        # a name compared with array-name literals, whichever side the name is written on
+        sides = [n.left] + list(n.comparators) if isinstance(n, ast.Compare) else []
+        if any(isinstance(x, ast.Name) for x in sides) and \
+                any(isinstance(x, ast.Constant) and x.value in ("field", "valid", "norm") for c_ in sides for x in ast.walk(c_)):
+            for c_ in sides:
                 for x in ast.walk(c_):
                     if isinstance(x, ast.Constant) and isinstance(x.value, str):
                         special.add(x.value)
